@@ -622,6 +622,17 @@ fn run_random(r: usize, pool: &Pool, seed: u64, len: usize, fault: &Option<Strin
             }
             let stored: std::collections::BTreeSet<i64> = run.prev.values().flatten().filter(|e| e.u == 1).map(|e| e.id).collect();
             let newcomers: Vec<usize> = (0..np).filter(|ix| u.xb(&u.peers[*ix].h) == *b as i64 && !stored.contains(&(*ix as i64 + 1))).take(5).collect();
+            // keys that are absent from the full bucket are first only looked up / reported on
+            // (dial failure, connection established, disconnect, lookup): nobody may be lost
+            for (n, ix) in newcomers.iter().enumerate() {
+                match (n + r) % 5 {
+                    0 => run.peer_op("fail", *ix, 0, "N", false, 1 + n % 2),
+                    1 => run.peer_op("est", *ix, 0, "N", n % 2 == 0, 0),
+                    2 => run.peer_op("disc", *ix, 0, "N", false, 0),
+                    3 => run.peer_op("lookup", *ix, 0, "N", false, 0),
+                    _ => run.peer_op("add", *ix, 0, "N", false, 0), // no addresses: ignored
+                }
+            }
             for ix in newcomers {
                 let c = ["N", "C", "N", "X"][rng.gen_range(0..4)];
                 run.peer_op("add", ix, 1, c, false, 0);
